@@ -4,12 +4,15 @@ let int_of_n = function N0 -> 0 | Npos p -> int_of_pos p
 let rec pos_of_int n = if n = 1 then XH else if n land 1 = 0 then XO (pos_of_int (n lsr 1)) else XI (pos_of_int (n lsr 1))
 let n_of_int n = if n = 0 then N0 else Npos (pos_of_int n)
 let rec int_of_nat = function O -> 0 | S n -> 1 + int_of_nat n
+let rec bits_of_pos = function XH -> "1" | XO p -> bits_of_pos p ^ "0" | XI p -> bits_of_pos p ^ "1"
+let rec pos_small p k = k > 0 && (match p with XH -> true | XO q | XI q -> pos_small q (k-1))
+let num = function N0 -> "0" | Npos p -> if pos_small p 60 then string_of_int (int_of_pos p) else "b" ^ bits_of_pos p
 let str s = String.concat "," (List.map (fun c -> string_of_int (int_of_n c)) s)
 let mark m = Printf.sprintf "%d %d %d" (int_of_nat m.m_index) (int_of_nat m.m_line) (int_of_nat m.m_col)
 let style = function SPlain -> "plain" | SSingle -> "'" | SDouble -> "\"" | SLiteral -> "|" | SFolded -> ">"
 let kind = function
   | TStreamStart -> "StreamStart" | TStreamEnd -> "StreamEnd"
-  | TDirective (n, v) -> "Directive " ^ str n ^ " " ^ (match v with DNone -> "none" | DYaml (a,b) -> "yaml " ^ str a ^ " " ^ str b | DTag (h,p) -> "tag " ^ str h ^ " " ^ str p)
+  | TDirective (n, v) -> "Directive " ^ str n ^ " " ^ (match v with DNone -> "none" | DYaml (a,b) -> "yaml " ^ num a ^ " " ^ num b | DTag (h,p) -> "tag " ^ str h ^ " " ^ str p)
   | TDocStart -> "DocumentStart" | TDocEnd -> "DocumentEnd" | TBlockSeqStart -> "BlockSequenceStart"
   | TBlockMapStart -> "BlockMappingStart" | TBlockEnd -> "BlockEnd" | TFlowSeqStart -> "FlowSequenceStart"
   | TFlowMapStart -> "FlowMappingStart" | TFlowSeqEnd -> "FlowSequenceEnd" | TFlowMapEnd -> "FlowMappingEnd"
